@@ -129,7 +129,7 @@ def tmpl(name):
 class Case:
     def __init__(self, names, stop='eof', cut=None, mode='transaction', cache=0, roles=(0,), paused=None, sym_status=False, plugins=False, shards=None, custom=False, params=None, second=None, second_params=None, idle_timeout=False, stmt_timeout=False, shutdown=False):
         self.names = list(names)
-        self.stop = stop              # 'eof' | 'X'
+        self.stop = stop              # 'eof' | 'X' | 'drop' (the whole socket is gone after the last message: reads hit EOF AND writes fail)
         self.cut = cut                # None or number of bytes of the LAST message delivered before EOF
         self.mode = mode
         self.cache = cache
@@ -147,7 +147,7 @@ class Case:
         self.plugins = plugins        # query parser on; the plugin verdict for every parsed statement is symbolic (allow / deny / intercept)
 
     def label(self):
-        s = '+'.join(self.names) + ('|X' if self.stop == 'X' else '|eof') + ('' if self.cut is None else '@%d' % self.cut)
+        s = '+'.join(self.names) + ('|X' if self.stop == 'X' else ('|drop' if self.stop == 'drop' else '|eof')) + ('' if self.cut is None else '@%d' % self.cut)
         s += '' if self.mode == 'transaction' else '/session'
         s += '/cache' if self.cache else ''
         s += '' if len(self.roles) == 1 else '/%dbackends' % len(self.roles)
@@ -233,6 +233,8 @@ def run_case(chk, ob, ip, prog, case, props, extra_judge=None):
             env.server_setup.append(give_cache)
             for b in flat:
                 give_cache(b)
+        if case.stop == 'drop':
+            env.client_stream.writes_fail_from = len(sent)
         verdicts = {}
         if case.plugins:
             env.plugin_verdicts = case.plugins
